@@ -73,11 +73,12 @@ def position_invariant(ctx, F):
     all_ok &= not outside
     ctx.floor("C15.INV", "Position constructor sites", len(sites), 5)
     # consts
-    for c in ("WHITE_QUEEN_ROOK", "WHITE_KING_ROOK", "BLACK_QUEEN_ROOK", "BLACK_KING_ROOK"):
-        b = F.const_bytes("chess::position::Position::" + c)
+    for cpath in sorted(p_ for p_, c_ in F.consts.items() if c_["ty"] == "chess::position::Position"):
+        c = cpath.split("::")[-1]
+        b = F.const_bytes(cpath)
         r, cc = int.from_bytes(b[0:1], "little", signed=True), int.from_bytes(b[1:2], "little", signed=True)
         ok = 0 <= r <= 7 and 0 <= cc <= 7
-        ctx.check("C15.INV", "const-on-board:%s" % c, ok, fn="chess::position::Position::" + c, file=a["file"],
+        ctx.check("C15.INV", "const-on-board:%s" % c, ok, fn=cpath, file=a["file"],
                   what="a Position constant is off the board", found=(r, cc))
         all_ok &= ok
     # guarded constructors (HIR)
